@@ -94,7 +94,7 @@ def check_trend(ctx, wm: WeaverModel):
         ctx.check(len(stores) == 1, 'C14.3', f"trend ({tag}): exactly one in-place store per sample", f"{len(stores)} stores", fi.loc(), fi.qualname, f"trend:n:{normalized}")
         for e in stores:
             loops = e.loops
-            ok_loop = len(loops) == 1 and loops[0].kind == 'range' and loops[0].lo == C(0) and loops[0].hi == L
+            ok_loop = len(loops) == 1 and loops[0].kind in ('range', 'zip', 'iter') and loops[0].lo == C(0) and loops[0].hi is not None and loops[0].hi == L
             ctx.check(ok_loop, 'C14.3', f"trend ({tag}): the loop visits every sample once (range(len(x)))",
                       f"loops {[(l.kind, sym.show(l.lo) if l.lo is not None else None, sym.show(l.hi) if l.hi is not None else None) for l in loops]}",
                       e.loc(), fi.qualname, f"trend:loop:{normalized}")
